@@ -6,8 +6,10 @@
    The buffer is a byte memory (offset -> byte); the three counters live in its trailer exactly as
    in the Rust code, so the transmitter has no state of its own.  Operand widths, checked operators
    (Debug = overflow panics, Release = wraps) and the `as i32` truncations are those of the source.
-   `vwidth` selects the arithmetic of do_validate: W32 is the code as found (cursor and tail-intent
-   truncated to i32), W64 the repaired code (fixes/C08-validate-i64.diff).
+   `vwidth` names the version of the receiver: W32 is the code as found (do_validate compares cursor and
+   tail-intent truncated to i32), W64 the code with fixes/C08-validate-i64.diff, W64R the code with
+   fixes/C08-receive-next-revalidate.diff on top of it (receive_next validates the cursor once more after
+   it has read the header words and before it uses them).
    Definitions only. *)
 From Coq Require Import FMapPositive.
 Require Import V.Base.MachineInt.
@@ -90,7 +92,8 @@ Definition transmit (m : mode) (cap : Z) (mm : mem) (ty : Z) (bs : list Z) : out
 (* ---------------------------------------------------------------- receiver *)
 Record rx := mkRx { cursor : Z; next_record : Z; record_offset : Z; lapped : Z }.
 
-Inductive vwidth := W32 | W64.
+Inductive vwidth := W32 | W64 | W64R.
+Definition revalidates (w : vwidth) : bool := match w with W64R => true | _ => false end.
 
 Definition rx_new (cap : Z) (mm : mem) : rx :=
   let c := get64 mm (latest_idx cap) in
@@ -102,9 +105,13 @@ Definition do_validate (m : mode) (w : vwidth) (cap : Z) (mm : mem) (c : Z) : ou
   let it := get64 mm (intent_idx cap) in
   match w with
   | W32 => s <- add32 m (wrap32 c) cap ;; Ok (s >? wrap32 it)
-  | W64 => s <- add64 m c cap ;; Ok (s >? it)
+  | W64 | W64R => s <- add64 m c cap ;; Ok (s >? it)
   end.
 
+(* W64R (fixes/C08-receive-next-revalidate.diff): the header words are read, then `do_validate(cursor)` is called for
+   the cursor they were read at, and only then are they used; when that validation fails nothing that was read is
+   trusted: the lap is counted and the receiver restarts at the `latest` counter (cursor = next_record = latest, no
+   header read).  W32 / W64: the code as found (and Agrona's) uses the words read after its only validation. *)
 Definition receive_next (m : mode) (w : vwidth) (cap : Z) (mm : mem) (r : rx) : outcome (rx * bool) :=
   let tail := get64 mm (tail_idx cap) in
   let c0 := next_record r in
@@ -113,14 +120,19 @@ Definition receive_next (m : mode) (w : vwidth) (cap : Z) (mm : mem) (r : rx) : 
     let c := if v then c0 else get64 mm (latest_idx cap) in
     let lp := if v then lapped r else lapped r + 1 in
     let ro := Z.land (wrap32 c) (cap - 1) in
-    a1 <- align32 m (get32 mm ro) RA ;;
-    nr <- add64 m c a1 ;;
-    if get32 mm (ro + 4) =? PADDING then
-      a2 <- align32 m (get32 mm 0) RA ;;
-      nr2 <- add64 m nr a2 ;;
-      Ok ({| cursor := nr; next_record := nr2; record_offset := 0; lapped := lp |}, true)
+    v2 <- (if revalidates w then do_validate m w cap mm c else Ok true) ;;
+    if v2 then
+      a1 <- align32 m (get32 mm ro) RA ;;
+      nr <- add64 m c a1 ;;
+      if get32 mm (ro + 4) =? PADDING then
+        a2 <- align32 m (get32 mm 0) RA ;;
+        nr2 <- add64 m nr a2 ;;
+        Ok ({| cursor := nr; next_record := nr2; record_offset := 0; lapped := lp |}, true)
+      else
+        Ok ({| cursor := c; next_record := nr; record_offset := ro; lapped := lp |}, true)
     else
-      Ok ({| cursor := c; next_record := nr; record_offset := ro; lapped := lp |}, true)
+      let l := get64 mm (latest_idx cap) in
+      Ok ({| cursor := l; next_record := l; record_offset := Z.land (wrap32 l) (cap - 1); lapped := lp + 1 |}, true)
   else Ok (r, false).
 
 Inductive rres :=
